@@ -171,7 +171,7 @@ func runCKKSRefresh(c *eng.Ctx, cc caseCfg) {
 		outKeys = newKeyset(pOut, n)
 	}
 	e2sPool, s2ePool := &pool{}, &pool{}
-	freshB := 1 + pkEncBound(pIn, float64(n*pIn.N()))
+	freshB := freshBound(pIn, float64(n*pIn.N()))
 	Dd := cpOut.DefaultScale().Float64()
 	maxLogSlots := min(cpIn.LogMaxSlots(), cpOut.LogMaxSlots())
 
